@@ -20,6 +20,7 @@ func init() {
 		Assumptions: []string{"a node read = one Persist.Load call (no cache); by construction a correct Get loads each node of its search path once (<= h+1) and a correct Insert/Delete of a layer-L key loads the search path plus two spines below it (h+L+1 <= 2h+1), so the bounds of the statement leave room"},
 		MinObs:      map[string]int64{"ops_measured": 20000, "ops_on_height_ge3": 2000, "inserts_measured": 3000, "deletes_measured": 3000},
 		Run:         runC16,
+		EvalObs:     []string{"ops_measured"},
 	})
 }
 
